@@ -231,7 +231,7 @@ def main():
         chk.inconclusive_because(str(e)); chk.finish()
     root = chk.rundir()
     rng = common.SplitMix64(chk.seed * 86028121 + 12)
-    nasan, nmem = (14, 4) if quick else (150, 40)
+    nasan, nmem = (14, 4) if quick else (900, 160)
     jobs = []
     if "--replay" in sys.argv:
         rp = json.load(open(sys.argv[sys.argv.index("--replay") + 1]))["replay"]
